@@ -68,19 +68,30 @@ def check(R, F):
     ok = len(wn) == 1 and is_place(wn[0][1]['args'][1])
     vals = {}
     if ok:
-        l = hm.canon(wn[0][1]['args'][1]['pl'])['l']
+        # by value provenance: each value the limit can take, with the transport arm in which it was produced (a variable
+        # assigned on two arms, one component of a tuple built per arm, ...)
+        from qv import origins
+        a = wn[0][1]['args'][1]
+        c = hm.canon(a['pl'])
         tv = enum_variants(F, 'server::Transport')
-        for (b, i, kind, node) in hm.defs().get(l, []):
-            if kind == 'assign' and node['rv']['k'] in ('use', 'cast'):
-                v = paths.show_operand(hm, node['rv']['op'])
-                g = [x for x in paths.dom_guards(hm, b) if re.match(r'^discr\(arg3\.transport\) in \[\d\]$', x)]
-                for x in g[-1:]:
-                    vals[tv[int(re.search(r'\[(\d)\]', x).group(1))]] = v
+        for lf in origins.trace(hm, c['l'], origins.norm_path(c['p']), at=(wn[0][0], None)):
+            if lf[0] == 'const':
+                v, b = paths.show_operand(hm, lf[1]), lf[2]
+            elif lf[0] == 'rv' and lf[3].get('k') in ('use', 'cast'):
+                v, b = ('cast(%s)' % paths.show_operand(hm, lf[3]['op'])) if lf[3]['k'] == 'cast' else paths.show_operand(hm, lf[3]['op']), lf[1]
+            else:
+                vals['?'] = str(lf[0])
+                continue
+            g = [x for x in paths.dom_guards(hm, b) if re.match(r'^discr\(arg3\.transport\) in \[\d\]$', x)]
+            for x in g[-1:]:
+                vals[tv[int(re.search(r'\[(\d)\]', x).group(1))]] = v
+            if not g:
+                vals['?'] = v
     def _num(v):
-        m = re.match(r'^(?:cast\()?(\d+)_u\w+\)?$', v or '')
+        m = re.match(r'^(?:cast\()*(\d+)_u\w+\)*$', v or '')
         if m:
             return int(m.group(1))
-        return 65535 if v in ('u16::MAX', 'cast(u16::MAX)') else None
+        return 65535 if v in ('u16::MAX', 'cast(u16::MAX)', 'cast(cast(u16::MAX))') else None
     R.require(_num(vals.get('Udp')) == 512 and _num(vals.get('Tcp')) == 65535 and len(vals) == 2, 'initial-limit', HANDLE_MESSAGE + '|by-transport', hm.where(wn[0][0]) if wn else hm.where(), 'TCP 65535, UDP 512', 'initial limits by transport: %s' % vals)
     # ---- (b)
     sl = [(fn, b, t) for fn in server_fns(F) for b, t in calls_in(fn, W + 'set_limit')]
